@@ -201,6 +201,10 @@ def run(tier):
     rep.count("fields of LibraryDescription (with base)", len(libfields))
     allrefs = set()
     for f in funcs:
+        last_ = f.qname.rsplit("::", 1)[-1]
+        if f.cls in ("mfront::LibraryDescription", "mfront::CompiledTargetDescriptionBase") and \
+                (last_ in ("operator=", "LibraryDescription", "CompiledTargetDescriptionBase") or last_.startswith("~")):
+            continue        # memberwise copies / construction (implicit or defaulted) name every member without using it
         for n in f.stmts.values():
             if n["k"] == "MemberExpr" and n.get("fieldClass") in ("mfront::LibraryDescription",
                                                                    "mfront::CompiledTargetDescriptionBase"):
@@ -227,11 +231,11 @@ def run(tier):
     by_parent = {}
     for f in funcs:
         if f.parent is not None:
-            by_parent.setdefault(f.parent, []).append(f)
+            by_parent.setdefault((f.unit, f.parent), []).append(f)      # statement ids are per unit
 
     def with_lambdas(f):
         res = [f]
-        for g in by_parent.get(f.id, []):
+        for g in by_parent.get((f.unit, f.id), []):
             res += with_lambdas(g)
         return res
     def writer_labels(fn):
